@@ -368,6 +368,30 @@ def run_client_view(rep, srcdir):
                     "first reading and polling loops on the clock never terminate" % (callee, n), sample={"fn": callee, "calls_kept": n})
 
 
+def run_clock_ids(rep, prog, srcdir=None):
+    """P9: each clock reader reads the precise POSIX clock it stands for"""
+    from dqsa import consts
+    r = rep.rule("C12-P9", "the three clock readers read the precise clocks the encoding stands for: _dispatch_get_nanoseconds CLOCK_REALTIME, _dispatch_uptime "
+                 "CLOCK_MONOTONIC, _dispatch_monotonic_time CLOCK_BOOTTIME - not a *_COARSE variant (which lags by up to a timer tick: an absolute deadline computed "
+                 "as wall-now + timeout then expires early and a timed wait returns before its full timeout)", floor=3)
+    k = consts.get(["CLOCK_REALTIME", "CLOCK_MONOTONIC", "CLOCK_BOOTTIME"], srcdir=srcdir, unit="time", includes=("time.h",))
+    want = {"_dispatch_get_nanoseconds": "CLOCK_REALTIME", "_dispatch_uptime": "CLOCK_MONOTONIC", "_dispatch_monotonic_time": "CLOCK_BOOTTIME"}
+    seen = {}
+    for fn in prog.all_functions():
+        for c in fn.all_insts():
+            if c.op == "call" and c.callee == "clock_gettime" and c.origin in want:
+                seen.setdefault(c.origin, []).append(c)
+    for name, clk in sorted(want.items()):
+        cs = seen.get(name, [])
+        if not cs:
+            rep.unknown(r, "anchor vanished: no clock_gettime call attributed to %s" % name)
+            continue
+        for c in cs[:1]:
+            ok = c.ops[0][0] == "c" and c.ops[0][1] == k[clk]
+            rep.require(r, ok, c.loc, name, "clock-id:%s" % name,
+                        "%s reads clock id %s instead of %s (%d)" % (name, c.ops[0][1] if c.ops[0][0] == "c" else "?", clk, k[clk]), sample={"reader": name, "clock": clk})
+
+
 def run(rep, tier="quick", srcdir=None, only=None):
     facts = build.facts_for(UNITS, mode="all", srcdir=srcdir)
     rep.units = UNITS
@@ -390,6 +414,7 @@ def run(rep, tier="quick", srcdir=None, only=None):
     n += run_timeout(rep, prog)
     n += run_epoch(rep, prog)
     run_client_view(rep, srcdir)
+    run_clock_ids(rep, prog, srcdir)
     rep.extra["paths_enumerated"] = n
     rep.extra["exhaustive"] = True
 
